@@ -38,6 +38,21 @@ func sweepC19(a *Analysis, r *Registry, b *B) {
 		env := X.EnvFor(fn, "xs")
 		b.Eq(rB, name+"/result", b.pos(fn), fc.RetVal(0), env, "xs")
 		loops := fc.Ctx.Loops()
+		if len(loops) == 0 {
+			// delegated to package slices: slices.Reverse(xs), in place, on every path
+			done := false
+			fc.Ctx.Instrs(func(in ssa.Instruction) {
+				if c, ok := in.(*ssa.Call); ok && c.Call.StaticCallee() != nil && strings.HasPrefix(c.Call.StaticCallee().String(), "slices.Reverse[") && len(c.Call.Args) == 1 {
+					if fc.Val(c.Call.Args[0]).Equal(env.Vars["xs"].RF) && len(fc.Ctx.Returns()) == 1 && fc.Ctx.Dominates(c.Block(), fc.Ctx.Returns()[0].Block()) {
+						done = true
+					}
+				}
+			})
+			if done {
+				r.OK(rB, name+"/swap", b.pos(fn), "slices.Reverse(xs), in place, on every path")
+				return
+			}
+		}
 		if len(loops) != 1 {
 			r.Fail(rB, name+"/swap", b.pos(fn), "expected one loop")
 			return
